@@ -59,7 +59,8 @@ def run(m):
         out = r.stdout
         fired = [l.split()[1] for l in out.splitlines() if l.startswith(('VIOLATED ', 'UNDECIDED '))]
         exp = m.get('expect', '')
-        if r.returncode == 1 and (not exp or any(exp in k for k in fired)):
+        exps = [e.strip() for e in exp.split(',') if e.strip()]
+        if r.returncode == 1 and (not exps or any(e in k or k in e for e in exps for k in fired)):
             return m, 'fired', ', '.join(fired)
         if r.returncode == 1:
             return m, 'fired-other', ', '.join(fired)
